@@ -563,10 +563,19 @@ def rule_r6(chk, prog):
     ok = False
     why = 'no return'
     for r in rets:
-        v = r.value
+        v = expand_locals(g, r.value)
         if isinstance(v, ast.Call) and call_name(v) == 'os.path.join' and \
                 v.args:
             last = v.args[-1]
+            if isinstance(last, ast.Call) and isinstance(
+                    last.func, ast.Attribute) and \
+                    last.func.attr == 'format' and isinstance(
+                        last.func.value, ast.Constant) and isinstance(
+                            last.func.value.value, str) and \
+                    last.func.value.value.endswith('{}') and last.args and \
+                    unparse(last.args[-1]) == '__FILEEXT':
+                ok = True
+                continue
             if isinstance(last, ast.JoinedStr) and last.values and isinstance(
                     last.values[-1], ast.FormattedValue) and isinstance(
                         last.values[-1].value, ast.Name) and \
